@@ -348,3 +348,13 @@ static inline void reorder_contract_effect(TK *m, int e) {
   }
 #endif
 }
+
+/* standing assumption of the properties: no halfface is listed by two different live cells */
+static inline _Bool spec_cells_disjoint(const TK *m) {
+  _Bool ok = 1;
+  for (unsigned long c = 0; c < LC; c++) if (c < m->cells_.size && !CDEL(m, c))
+    for (unsigned long k = 0; k < LCV; k++) if (k < CVAL(m, c))
+      for (unsigned long c2 = 0; c2 < LC; c2++) if (c2 < m->cells_.size && c2 != c && !CDEL(m, c2))
+        for (unsigned long k2 = 0; k2 < LCV; k2++) if (k2 < CVAL(m, c2)) ok &= CHF(m, c, k) != CHF(m, c2, k2);
+  return ok;
+}
